@@ -46,6 +46,18 @@ Section VerifierLemmas.
       split; intros P [<-|HP]; auto.
   Qed.
 
+
+  Lemma ipp_vs_ok tr n (q : ipp_proof K MO) us tr' :
+    (length (ipp_L q) < 32)%nat -> length (ipp_R q) = length (ipp_L q) -> n = (2 ^ length (ipp_L q))%nat ->
+    ipp_absorb RO (innerproduct_domain_sep tr n) (ipp_L q) (ipp_R q) = Some (us, tr') ->
+    ipp_verification_scalars RO tr n q
+    = Ok (map sq us, map sq (map inv_or_zero us), s_build (rev (map sq us)) [allinv_of (map inv_or_zero us)], tr', us).
+  Proof.
+    intros H1 H2 H3 H4. unfold ipp_verification_scalars.
+    rewrite (proj2 (Nat.leb_gt 32 _) H1), H2, Nat.eqb_refl, H3, Nat.eqb_refl. cbn [negb].
+    rewrite <- H3, H4. reflexivity.
+  Qed.
+
   (* ---------- gate counts only grow in the second phase ---------- *)
   Lemma v_run2_mono (q : rprog K) : forall s, (v_num s <= v_num (fst (fst (v_run2 RO q s))))%nat.
   Proof.
